@@ -91,7 +91,7 @@ package codegen
 //@   requires !isnil(c) && !isnil(c.ParserGrammar) && isTerm(term)
 //@   ensures result == termTy(c, term)
 //
-//@ func context.matchMethod$1
+//@ func context.matchMethod$isMatch
 //@   requires !isnil(c) && !isnil(c.ParserGrammar) && !isnil(prod) && !isnil(method)
 //@   requires forall i int :: {prod.Terms[i]} 0 <= i && i < len(prod.Terms) ==> isTerm(prod.Terms[i])
 //@   ensures result <==> matches(c, prod, method)
